@@ -177,8 +177,26 @@ def canaries(rep, rng, okcases, wd):
     rep.count("canaries", len(picked))
     rep.count("canaries_rejected", rejected)
     # flipping + to - is invisible when an operand is always 0 etc.; demand a clear majority
-    if rejected * 2 < len(picked):
-        raise common.MachineryError("canaries: only %d of %d corrupted outputs were rejected" % (rejected, len(picked)))
+    # gating canaries: wrong translations that every input script set exposes
+    from harness import refcheck
+    o = {"add_standard_prefix": False}
+    x = {"slot": "e", "srcln": 2, "label": 10, "ctx": "canary", "expr": ""}
+    sn, ss = scripts_for("num", False), scripts_for("str", False)
+    refcheck.fixed_canaries(rep, wd, [
+        (["5 INPUT A,B", "10 Z=A+B"], o, sn, "A + B", "A - B"),
+        (["5 INPUT A,B", "10 Z=A*B+2"], o, sn, "A * B + 2.0", "A * (B + 2.0)"),
+        (["5 INPUT A,B", "10 Z=A-B-2"], o, sn, "A - B - 2.0", "A - (B - 2.0)"),
+        (["5 INPUT A,B", "10 Z=A AND B"], o, sn, "LAND", "LOR"),
+        (["5 INPUT A,B", "10 Z=NOT A"], o, sn, "LNOT(A)", "A"),
+        (["5 INPUT A,B", "10 Z=2^A"], o, sn, "2.0 ^ A", "A ^ 2.0"),
+        (["5 INPUT A,B", "10 Z=INT(A/2)"], o, sn, "A / 2.0", "A"),
+        (["5 INPUT A,B,A$,B$", "10 IF A=2 AND B=2 THEN Z=1", "20 Y=1"], o, ss, "AND", "OR"),
+        (["5 INPUT A,B,A$,B$", "10 IF A$<B$ THEN Z=1", "20 Y=1"], o, ss, "<", ">="),
+        (["5 INPUT A,B,A$,B$", "10 Z$=A$+B$"], o, ss, "A$ + B$", "B$ + A$"),
+        (["5 INPUT A,B,A$,B$", "10 Z=LEN(B$)+1"], o, ss, "LEN(B$)", "LEN(A$)"),
+        (["5 INPUT A,B", "10 Z=&H10"], o, sn, "$10", "$11"),
+        (["5 INPUT A,B", "10 Z=1.5E1"], o, sn, "15.0", "1.5"),
+    ], module="Trace_C01", extra=x)
 
 
 if __name__ == "__main__":
